@@ -68,6 +68,9 @@ class Dev:
         # occurrences of one case can fall differently)
         self.waiver_seen = 0
         self.used_fmt_unknown = False
+        # `fmt_unknown` may also be a dict (format, string) -> bool: a checker is a function of the string, so
+        # two different (format, string) pairs of one case can fall differently (uuid vs date-time of "2")
+        self.fmt_seen = set()
 
 
 _ECMA_CACHE = {}
@@ -342,7 +345,9 @@ def valid(schema, value, root=None, dev=None, depth=0):
                     known = True
             if known is None:
                 dev.used_fmt_unknown = True
-                known = dev.fmt_unknown
+                dev.fmt_seen.add((fmt, value))
+                known = dev.fmt_unknown.get((fmt, value), True) if isinstance(dev.fmt_unknown, dict) \
+                    else dev.fmt_unknown
             if not known:
                 return False
 
@@ -489,6 +494,21 @@ def verdicts(schema, value, root=None, curated=None, **switches):
             if len(out) == 2:
                 break
     elif len(out) < 2 and occurrences > 8:
+        return {True, False}
+    pairs = sorted(first.fmt_seen | probe.fmt_seen, key=repr)
+    if len(out) < 2 and 2 <= len(pairs) <= 6:
+        import itertools  # pylint: disable=import-outside-toplevel
+
+        for plan in itertools.product((True, False), repeat=len(pairs)):
+            if all(plan) or not any(plan):
+                continue
+            for waiver in ((True, False) if used[0] else (False,)):
+                dev = Dev(waiver=waiver, fmt_unknown=dict(zip(pairs, plan)), mult_disputed=True, curated=curated,
+                          **switches)
+                out.add(valid(schema, value, root, dev))
+            if len(out) == 2:
+                break
+    elif len(out) < 2 and len(pairs) > 6:
         return {True, False}
     return out
 
